@@ -18,6 +18,8 @@ from ..dataflow import DefUse
 from ..irschema import ir_classes, ir_schema
 from ..sites import guard_chain
 from .c10 import slot_access
+from .util import canon, cguards, dict_of
+import re
 
 
 def run(repo: Repo, rep: Report, tier: str) -> None:
@@ -39,8 +41,9 @@ def run(repo: Repo, rep: Report, tier: str) -> None:
             st = c
             while not isinstance(st, ast.stmt):
                 st = pm[st]
-            gs = [norm(t) for t, pol in guard_chain(li, st, pm) if pol]
-            rep.check(any("in self.parent.signal_refs" in g for g in gs) and norm(c.args[0]) == "name", "C20-R1", "the referenced name is the identifier being read from signal_refs", "; ".join(gs), li.loc(c))
+            gs = [t for t, pol in cguards(li, c) if pol]
+            argt = canon(li).text(c.args[0])
+            rep.check(any(g == f"{argt} in self.parent.signal_refs" for g in gs) and argt == "expr.name", "C20-R1", "the referenced name is the identifier being read from signal_refs", "; ".join(gs), li.loc(c))
 
     # ---------------- R2 ---------------------------------------------------------------
     rep.rule("C20-R2", "create_output_anchors: for every alias of every is_output entry with a producer, an anchor placement keyed by (signal id, alias) is created and on every path "
@@ -48,24 +51,40 @@ def run(repo: Repo, rep: Report, tier: str) -> None:
     coa = repo.func("EntityPlacer.create_output_anchors")
     cfg = CFG(coa.node)
     creates = [s for s in cfg.stmts() if isinstance(s, ast.Expr) and isinstance(s.value, ast.Call) and call_name(s.value) == "create_and_add_placement"]
-    sinks = [s for s in cfg.stmts() if isinstance(s, ast.Expr) and norm(s.value) == "self.signal_graph.add_sink(signal_id, anchor_id)"]
+    ccoa = canon(coa)
+    E = "ELEM(self.signal_usage.items())"
+    anchor_txt = ccoa.text(kwarg(creates[0].value, "ir_node_id")) if creates else ""
+    sinks = [s for s in cfg.stmts() if isinstance(s, ast.Expr) and isinstance(s.value, ast.Call) and norm(s.value.func) == "self.signal_graph.add_sink" and len(s.value.args) == 2
+             and ccoa.text(s.value.args[0]) == f"{E}[0]" and ccoa.text(s.value.args[1]) == anchor_txt]
     ok = bool(creates) and bool(sinks)
-    if ok:
-        loop = [s for s in cfg.stmts() if isinstance(s, ast.For) and "output_aliases" in norm(s.iter)][0]
+    loop = None
+    if creates:
+        cur = creates[0]
+        while cur in ccoa.pm:
+            cur = ccoa.pm[cur]
+            if isinstance(cur, ast.For):
+                loop = cur
+                break
+    if ok and loop is not None:
         leak = cfg.reaches_avoiding(creates[0], {id(loop), id(EXIT)}, lambda n: n is sinks[0], start_inclusive=False)
         ok = not leak
-    rep.check(ok, "C20-R2", "every anchor is wired to the result it exposes", "add_sink(signal_id, anchor_id) on every path after the placement" if ok else "an anchor can be created without being wired", coa.loc(creates[0]) if creates else coa.loc())
-    du = DefUse(coa)
-    aid = [norm(v) for v in du.value_exprs("anchor_id")]
-    rep.check(aid == ["f'{signal_id}_{alias_name}_output_anchor'"], "C20-R2", "anchor id is a function of (signal id, alias): one per name", str(aid), coa.loc())
+    rep.check(ok and loop is not None, "C20-R2", "every anchor is wired to the result it exposes", "add_sink(signal_id, anchor_id) on every path after the placement" if ok else "an anchor can be created without being wired", coa.loc(creates[0]) if creates else coa.loc())
+    m_ = re.fullmatch(r"f'\{ELEM\(self\.signal_usage\.items\(\)\)\[0\]\}_\{ELEM\((.+)\)\}_output_anchor'", anchor_txt)
+    ok = m_ is not None and loop is not None and m_.group(1) == ccoa.text(loop.iter)
+    rep.check(ok, "C20-R2", "anchor id is a function of (signal id, alias): one per name", "f'{signal id}_{alias}_output_anchor'" if ok else anchor_txt[:120], coa.loc())
     c = creates[0].value if creates else None
     ok = c is not None and norm(kwarg(c, "entity_type")) == "'constant-combinator'" and norm(kwarg(c, "signals")) == "[]" and norm(kwarg(c, "role")) == "'output_anchor'"
     rep.check(ok, "C20-R2", "the anchor is an empty constant combinator with role output_anchor", norm(c)[:120] if c is not None else "", coa.loc())
-    gate = [n for n in walk_local(coa.node) if isinstance(n, ast.If) and norm(n.test) == "not entry.debug_metadata.get('is_output')" and isinstance(n.body[-1], ast.Continue)]
+    gate = [n for n in walk_local(coa.node) if isinstance(n, ast.If) and ccoa.text(n.test) == f"not {E}[1].debug_metadata.get('is_output')" and isinstance(n.body[-1], ast.Continue)]
     rep.check(bool(gate), "C20-R2", "anchors are created for exactly the entries marked is_output", "skip unless is_output" if gate else "gate missing", coa.loc())
-    cb = [n for n in walk_local(coa.node) if isinstance(n, ast.If) and norm(n.test) == "isinstance(entry.producer, IRConst)"]
-    ok = bool(cb) and any(isinstance(x, ast.Assign) and norm(x) == "output_aliases = output_aliases - {original_name}" for s in cb[0].body for x in ast.walk(s)) \
-        and any("declared_name" in norm(v) for v in du.value_exprs("original_name"))
+    cb = [n for n in walk_local(coa.node) if isinstance(n, ast.If) and ccoa.text(n.test) == f"isinstance({E}[1].producer, IRConst)"]
+    ok = False
+    if cb and loop is not None and isinstance(loop.iter, ast.Name):
+        for x in [x for s_ in cb[0].body for x in ast.walk(s_)]:
+            if isinstance(x, ast.Assign) and isinstance(x.targets[0], ast.Name) and x.targets[0].id == loop.iter.id and isinstance(x.value, ast.BinOp) and isinstance(x.value.op, ast.Sub) \
+                    and isinstance(x.value.left, ast.Name) and x.value.left.id == loop.iter.id and isinstance(x.value.right, ast.Set) and len(x.value.right.elts) == 1 \
+                    and ccoa.text(x.value.right.elts[0]) == f"{E}[1].debug_metadata.get('declared_name')":
+                ok = True
     rep.check(ok, "C20-R2", "a constant is skipped only under its own declared name; other aliases still get anchors", "aliases minus {declared_name}" if ok else "constant aliases are dropped", coa.loc(cb[0]) if cb else coa.loc())
 
     # ---------------- R3 ---------------------------------------------------------------
@@ -76,25 +95,32 @@ def run(repo: Repo, rep: Report, tier: str) -> None:
     for k in ("variable", "line", "source_file", "operation", "details"):
         rep.check(k in rkeys, "C20-R3", f"description reads debug_info['{k}']", "read" if k in rkeys else "key ignored by the formatter", fed.loc())
     bdi = repo.func("EntityPlacer._build_debug_info")
-    wkeys = {n.slice.value for n in walk_local(bdi.node) if isinstance(n, ast.Subscript) and isinstance(n.ctx, ast.Store) and norm(n.value) == "debug_info" and isinstance(n.slice, ast.Constant)}
+    cbdi = canon(bdi)
+    dubd = DefUse(bdi)
+    ret_names = {x.id for n in walk_local(bdi.node) if isinstance(n, ast.Return) and n.value is not None for x in ast.walk(n.value)
+                 if isinstance(x, ast.Name) and any(isinstance(v, ast.Dict) for v in dubd.value_exprs(x.id))}
+    wkeys = {n.slice.value for n in walk_local(bdi.node) if isinstance(n, ast.Subscript) and isinstance(n.ctx, ast.Store) and isinstance(n.value, ast.Name) and n.value.id in ret_names and isinstance(n.slice, ast.Constant)}
     rep.check({"variable", "line", "source_file", "operation", "details"} <= wkeys, "C20-R3", "the placer writes the keys the formatter reads", str(sorted(wkeys)), bdi.loc())
-    pmb = parents_map(bdi.node)
-    ov = [n for n in walk_local(bdi.node) if isinstance(n, ast.Assign) and norm(n.targets[0]) == "debug_info['variable']" and norm(n.value) == "declared_name"]
-    ok = bool(ov) and any("user_declared" in norm(t) and pol for t, pol in guard_chain(bdi, ov[0], pmb))
-    rep.check(ok, "C20-R3", "a declared name overrides the node id in the label", norm(ov[0]) if ov else "override missing", bdi.loc(ov[0]) if ov else bdi.loc())
-    inp = [n for n in walk_local(bdi.node) if isinstance(n, ast.AugAssign) and norm(n.target) == "details" and "(input)" in norm(n.value)]
-    dub = DefUse(bdi)
-    ok = bool(inp) and any("value={op.value}" in norm(v) for v in dub.value_exprs("details"))
-    rep.check(ok, "C20-R3", "named inputs are labelled with their value and `(input)`", "details = value=<v> (input)" if ok else "input label missing", bdi.loc())
+    ov = [n for n in walk_local(bdi.node) if isinstance(n, ast.Assign) and isinstance(n.targets[0], ast.Subscript) and isinstance(n.targets[0].value, ast.Name) and n.targets[0].value.id in ret_names
+          and norm(n.targets[0].slice) == "'variable'" and cbdi.text(n.value) == "op.debug_metadata.get('declared_name')"]
+    ok = bool(ov) and any("user_declared" in t and pol for t, pol in cguards(bdi, ov[0]))
+    rep.check(ok, "C20-R3", "a declared name overrides the node id in the label", "debug_info['variable'] = declared_name under user_declared" if ok else "override missing", bdi.loc(ov[0]) if ov else bdi.loc())
+    det = [n for n in walk_local(bdi.node) if isinstance(n, ast.Assign) and isinstance(n.targets[0], ast.Subscript) and isinstance(n.targets[0].value, ast.Name) and n.targets[0].value.id in ret_names
+           and norm(n.targets[0].slice) == "'details'" and any("isinstance(op, IRConst)" == t and pol for t, pol in cguards(bdi, n))]
+    alts = cbdi.alts(det[0].value) if det else []
+    ok = bool(det) and any("value={op.value}" in a_ for a_ in alts) and any("AUG(' (input)')" in a_ for a_ in alts)
+    inp = [n for n in walk_local(bdi.node) if isinstance(n, ast.AugAssign) and "(input)" in norm(n.value)]
+    ok = ok and bool(inp) and any("user_declared" in t and pol for t, pol in cguards(bdi, inp[0]))
+    rep.check(ok, "C20-R3", "named inputs are labelled with their value and `(input)`", "details = value=<v> (input)" if ok else f"input label missing: {alts}", bdi.loc())
     ce = repo.func("PlanEntityEmitter.create_entity")
-    duc = DefUse(ce)
-    ok = any(isinstance(n, ast.Assign) and norm(n.targets[0]) == "entity.player_description" and norm(n.value) == "description" for n in walk_local(ce.node)) \
-        and any("format_entity_description(debug_info)" in norm(v) for v in duc.value_exprs("description")) and any("placement.properties.get('debug_info'" in norm(v) for v in duc.value_exprs("debug_info"))
-    rep.check(ok, "C20-R3", "the description of every entity is format_entity_description(placement debug_info)", "", ce.loc())
+    cce = canon(ce)
+    pd = [n for n in walk_local(ce.node) if isinstance(n, ast.Assign) and isinstance(n.targets[0], ast.Attribute) and n.targets[0].attr == "player_description"]
+    ok = bool(pd) and re.fullmatch(r"format_entity_description\(placement\.properties\.get\('debug_info'(, .+)?\)\)", cce.text(pd[0].value)) is not None
+    rep.check(ok, "C20-R3", "the description of every entity is format_entity_description(placement debug_info)", cce.text(pd[0].value)[:100] if pd else "", ce.loc())
     anchor_info = [n for n in walk_local(coa.node) if isinstance(n, ast.Dict) and any(isinstance(k, ast.Constant) and k.value == "operation" for k in n.keys)]
-    d = {k.value: norm(v) for k, v in zip(anchor_info[0].keys, anchor_info[0].values)} if anchor_info else {}
-    out_branch = any(isinstance(n, ast.If) and "operation == 'output'" in norm(n.test) for n in ast.walk(fed.node))
-    rep.check(d.get("variable") == "alias_name" and d.get("operation") == "'output'" and out_branch, "C20-R3", "anchors are labelled with the alias and `(output anchor)`", str(d), coa.loc())
+    d = dict_of(anchor_info[0], ccoa) if anchor_info else {}
+    out_branch = any(isinstance(n, ast.If) and "operation == 'output'" in canon(fed).text(n.test).replace("debug_info.get('operation')", "operation").replace("debug_info['operation']", "operation") for n in ast.walk(fed.node))
+    rep.check(loop is not None and d.get("variable") == f"ELEM({ccoa.text(loop.iter)})" and d.get("operation") == "'output'" and out_branch, "C20-R3", "anchors are labelled with the alias and `(output anchor)`", str({k: v[-40:] for k, v in d.items()}), coa.loc())
 
     # ---------------- R4 ---------------------------------------------------------------
     rep.rule("C20-R4", "is_output = (labelled and no consumers) or (has aliases whose names were never read); consumers are recorded only for operand slots of the node being visited")
@@ -103,14 +129,21 @@ def run(repo: Repo, rep: Report, tier: str) -> None:
     # only produces an extra anchor for a consumed name, which the property does not forbid.  The unsafe direction is a spurious
     # consumer; record_consumer is only ever called with operand slots of the node being visited, checked next.
     rc_calls = [c for c in calls_in(an.node, "record_consumer")]
-    spurious = [c for c in rc_calls if not (norm(c.args[0]).startswith(("op.", "cond.", "prop_value", "input_source", "item")))]
-    rep.check(not spurious, "C20-R4", "consumers are recorded only for operand slots of the visited node", f"{len(rc_calls)} record_consumer calls" + (f"; suspicious: {[norm(c) for c in spurious]}" if spurious else ""), an.loc())
-    flags = [n for n in walk_local(an.node) if isinstance(n, ast.Assign) and norm(n.targets[0]) == "entry.debug_metadata['is_output']"]
-    pma = parents_map(an.node)
-    conds = sorted({norm(t) for n in flags for t, pol in guard_chain(an, n, pma) if pol and "entry." in norm(t)})
+    can_ = canon(an)
+    spurious = [c for c in rc_calls if not can_.text(c.args[0]).startswith(("ELEM(ir_operations).", "ELEM(ELEM(ir_operations)."))]
+    rep.check(not spurious and len(rc_calls) >= 10, "C20-R4", "consumers are recorded only for operand slots of the visited node", f"{len(rc_calls)} record_consumer calls" + (f"; suspicious: {[norm(c) for c in spurious]}" if spurious else ""), an.loc())
+    flags = [n for n in walk_local(an.node) if isinstance(n, ast.Assign) and isinstance(n.targets[0], ast.Subscript) and norm(n.targets[0].slice) == "'is_output'" and norm(n.targets[0].value).endswith(".debug_metadata")]
+    conds_all: set[str] = set()
+    for n in flags:
+        en = can_.text(n.targets[0].value.value)
+        sid = en[:-3] + "[0]" if en.endswith("[1]") else "?"
+        for t, pol in cguards(an, n):
+            if pol and en in t:
+                conds_all.add(t.replace(en, "entry").replace(sid, "signal_id"))
+    conds = sorted(conds_all)
     ok = "entry.debug_label and entry.debug_label != signal_id and (not entry.consumers)" in conds and "entry.output_aliases" in conds
     rep.check(ok, "C20-R4", "is_output <=> (labelled and unconsumed) or (has unreferenced aliases)", "; ".join(conds), an.loc())
-    oa = [n for n in walk_local(an.node) if isinstance(n, ast.If) and norm(n.test) == "alias_name not in self.referenced_signal_names"]
+    oa = [n for n in walk_local(an.node) if isinstance(n, ast.If) and re.fullmatch(r"ELEM\(.+\.alias_names\) not in self\.referenced_signal_names", can_.text(n.test))]
     rep.check(bool(oa), "C20-R4", "an alias is output-only iff its name was never read", "alias_name not in referenced_signal_names" if oa else "", an.loc())
 
     # ---------------- R5 ---------------------------------------------------------------
@@ -119,7 +152,14 @@ def run(repo: Repo, rep: Report, tier: str) -> None:
     fin = [n for n in walk_local(dm.node) if isinstance(n, ast.Assign) and norm(n.targets[0]) == "entry.should_materialize" and isinstance(n.value, ast.Call) and call_name(n.value) == "bool"]
     terms = set()
     if fin and isinstance(fin[0].value.args[0], ast.BoolOp):
-        terms = {norm(v) for v in fin[0].value.args[0].values}
+        cdm = canon(dm)
+        for v in fin[0].value.args[0].values:
+            t = cdm.text(v)
+            if "ELEM(('name', 'declared_type', 'source_ast')) in entry.debug_metadata" in t:
+                t = "named_metadata"
+            elif t == "bool(entry.debug_label) and entry.debug_label != entry.signal_id":
+                t = "has_user_label"
+            terms.add(t)
     want = {"entry.is_typed_literal", "entry.export_targets", "not entry.consumers", "named_metadata", "has_user_label"}
     rep.check(want <= terms, "C20-R5", "every reason to materialise a constant is still honoured",
               f"disjuncts {sorted(terms)}" + ("" if want <= terms else f"; missing {sorted(want - terms)}: such constants silently disappear from the blueprint"), dm.loc(fin[0]) if fin else dm.loc())
